@@ -443,7 +443,7 @@ End Run.
    alg   ::= (0) | (1 (draw ...)) | (2 alg hashmod auto maxdup maxatt) | (3 alg (size?) upd ((child ...) ...))
    upd   ::= (0) | (1 n) | (2 n) | (3) | (4 ((pid ...) ...))
    out   ::= (snapshot ...)            one per crash point (before each event, and after the last)
-   snapshot ::= (live recovered live_continuation recovered_continuation)
+   snapshot ::= (live recovered live_continuation recovered_continuation (recovered_with_undelivered_reward?))
    obs   ::= (np nf (dna ...) ((key ((reward?) ...)) ...) (extra ...) (obs ...))
    dna   ::= (val (pid?) (gid?) (ini?) (fsn?) (fit?) (key?) skipped) *)
 Local Open Scope Z_scope.
@@ -489,13 +489,25 @@ Section Sim.
   Variable g : gen.
   Variable reward_of : Z -> Z.
   Variable det : bool.
-  Definition snapshot (r : run_st g) : tr :=
+  (* the reward of the oldest in-flight proposal reached the history but feedback() was never called *)
+  Definition undelivered (r : run_st g) (next : option Z) : list tr :=
+    match next with
+    | Some 1 =>
+        match nth_error (r_hist g r) (r_ptr g r) with
+        | Some (d, _) =>
+            [e_obs (obs g (recovered g (set_nth (r_ptr g r) (d, Some (reward_for reward_of d)) (r_hist g r))))]
+        | None => []
+        end
+    | _ => []
+    end.
+  Definition snapshot (r : run_st g) (next : option Z) : tr :=
     let rec := recovered g (r_hist g r) in
     L [e_obs (obs g (r_st g r)); e_obs (obs g rec);
        elist eZ (if det then continue_from g 5 (r_st g r) else []);
-       elist eZ (if det then continue_from g 5 rec else [])].
+       elist eZ (if det then continue_from g 5 rec else []);
+       L (undelivered r next)].
   Fixpoint sim (evs : list Z) (r : run_st g) : list tr :=
-    snapshot r ::
+    snapshot r (hd_error evs) ::
     match evs with
     | [] => []
     | e :: rest => let r' := step g reward_of r e in if r_ok g r' then sim rest r' else []
